@@ -160,7 +160,138 @@ def banner_seeds():
     ]
 
 
+# ---- the other accepted input forms and the rejections (ops of channel `editx`, see editlib.enc_op):
+# ---- S = the text as a str, L = a line object (BaseCfgLine) that is in no list, X = neither
+def form_ops():
+    ops = []
+    for txt in ["n", " n", "! k", " "]:
+        ops += [["insf", 0, "L", txt], ["insf", 2, "L", txt], ["insf", -1, "L", txt]]
+        for h in range(4):
+            ops += [["oibf", h, "L", txt], ["oiaf", h, "L", txt], ["atfl", h, txt, -1, False]]
+    for h in range(4):
+        ops += [["oibf", h, "X", "x" * h], ["oiaf", h, "X", "x" * h], ["atfl", h, "q", -1, True], ["atfl", h, "q", 2, False],
+                ["rem", h], ["del2", h]]
+    ops += [["insf", "X", "S", "n"], ["insf", "X", "L", "nn"], ["insf", "X", "X", "nnn"], ["insf", 1, "X", "n"], ["insf", -1, "X", "nn"]]
+    for rx in ["a", "^a$", "Eth1", " b", "", "^ ", "zzz", "a.b"]:
+        ops += [["libf", "L", rx, "S", "new"], ["liaf", "L", rx, "S", " new"], ["libf", "S", rx, "L", "new"], ["liaf", "S", rx, "L", " "],
+                ["libf", "L", rx, "L", " "], ["liaf", "S", rx, "X", "new"]]
+    ops += [["libf", "X", "", "S", "new"], ["liaf", "X", "", "L", "new"], ["libf", "X", "", "X", "new"], ["remf"], ["remx"]]
+    return ops
+
+
+def rand_form_op(rng):
+    txt = rng.choice(E.PAYLOADS)
+    h = rng.randrange(0, 64)
+    form = rng.choice(["L", "L", "L", "S", "X"])
+    r = rng.random()
+    if r < 0.15:
+        return ["insf", rng.choice([0, 1, 2, -1, -2, 99, "X"]), form, txt]
+    if r < 0.35:
+        return [rng.choice(["oibf", "oiaf"]), h, form, txt]
+    if r < 0.55:
+        return [rng.choice(["libf", "liaf"]), rng.choice(["L", "L", "S", "X"]), rng.choice(E.REGEXES + ["", " b", "a"]), form, txt]
+    if r < 0.70:
+        mode = rng.random()
+        if mode < 0.4:
+            return ["atfl", h, txt, -1, False]
+        if mode < 0.7:
+            return ["atfl", h, txt.lstrip() or "x", -1, True]
+        return ["atfl", h, txt, rng.choice([1, 2, 3, 4]), rng.random() < 0.1]
+    if r < 0.82:
+        return ["rem", h]
+    if r < 0.94:
+        return ["del2", h]
+    return [rng.choice(["remf", "remx"])]
+
+
+def rand_form_ops(rng, n, auto):
+    ops = []
+    for _ in range(n):
+        if rng.random() < 0.5:
+            ops += E.rand_ops(rng, 1, auto)
+        else:
+            ops.append(rand_form_op(rng))
+            if not auto and rng.random() < 0.25:
+                ops.append(["commit"])
+    return ops
+
+
+def dup_config(rng):
+    """short configs with equal texts in a row: after a delete the same text can sit at the deleted line's number
+    (the one situation in which a second delete() through the same handle is not refused)"""
+    out = []
+    for _ in range(rng.randint(2, 7)):
+        out.append(rng.choice(["", "", " ", "  "]) + rng.choice(["a", "a", "a", "b"]))
+    return out
+
+
+def aux_cases(rng, tier):
+    """calls that are not part of a history: classify_family_indent called directly (any argument form), and
+    replace_text / re_sub on a line object that belongs to no configuration"""
+    n = {"quick": 260, "thorough": 6000, "search": 200}[tier]
+    for _ in range(n):
+        syntax = rng.choice(["ios", "ios", "nxos", "asa"])
+        st = " " * rng.choice([0, 0, 1, 2, 3, 4, 6]) + rng.choice(["a", "interface Eth1", "! c"])
+        form = rng.choice(["S", "S", "S", "S", "S", "L", "X"])
+        txt = " " * rng.choice([0, 1, 2, 3, 4, 5, 6, 8]) + rng.choice(["x", "", "! k", "a b"])
+        yield {"kind": "cfi", "syntax": syntax, "self": st, "form": form, "txt": txt, "_origin": "cfi",
+               "req": wire.req("editx", "cfi", str(E.width_of(syntax)), wire.enc_str(st), form,
+                               wire.enc_str(txt if form != "X" else ""))}
+    m = {"quick": 120, "thorough": 3000, "search": 100}[tier]
+    for _ in range(m):
+        text = rng.choice(E.PAYLOADS + [" a.b a(b", "Eth1 Eth10 Eth1"])
+        ops = []
+        for _ in range(rng.choice([1, 2, 3])):
+            if rng.random() < 0.5:
+                ops.append(["rep", rng.choice(["a", "Eth1", "b", " ", "1.1", "{", "("]), rng.choice(["", "z", "a", "{q}"])])
+            else:
+                ops.append(["sub", rng.choice(E.REGEXES[:10]), rng.choice(["", "z", r"\g<0>\g<0>", "a"])])
+        # the substituted texts are oracle data of the model (as in a history), computed here on the harness's own
+        # replay of the operations, not on what the implementation returned
+        cur, enc = text, []
+        for o in ops:
+            cur = cur.replace(o[1], o[2]) if o[0] == "rep" else re.sub(o[1], o[2], cur)
+            enc.append(f"rep:{wire.enc_str(o[1])}:{wire.enc_str(o[2])}" if o[0] == "rep" else "sub:" + wire.enc_str(cur))
+        yield {"kind": "det", "syntax": rng.choice(["ios", "nxos", "asa"]), "text": text, "ops": ops, "_origin": "det",
+               "req": wire.req("editx", "det", wire.enc_str(text), *enc)}
+
+
 def cases(rng, tier):
+    if tier != "search":
+        fo = form_ops()
+        for lines in seeds():
+            for op in fo:
+                yield E.mk_case("ios", False, True, lines, [op], "forms")
+            for op in fo[::3]:
+                yield E.mk_case("ios", True, True, lines, [op], "forms-ign")
+            for op in fo[1::4]:
+                yield E.mk_case("nxos", False, False, lines, [op], "forms-nxos")
+        for lines in banner_seeds():
+            for op in fo[::2]:
+                if op[0] in ("atfl", "rem", "del2"):
+                    continue
+                yield E.mk_case("ios", False, True, lines, [op], "forms-banner")
+    nf = {"quick": 700, "thorough": 30000, "search": 1200}[tier]
+    for j in range(nf):
+        syntax = rng.choice(["ios", "ios", "nxos", "asa", "iosxr"])
+        auto = rng.random() < 0.7
+        ign = rng.random() < 0.3
+        r = rng.random()
+        if r < 0.35:
+            lines = rng.choice(seeds())
+        elif r < 0.65:
+            lines = dup_config(rng)
+        else:
+            lines = plain_config(rng, ign and rng.random() < 0.5)
+        # every third history runs with factory=True (the lines are then built by config_line_factory)
+        ops = rand_form_ops(rng, rng.choice([1, 2, 3, 4]), auto)
+        factory = j % 3 == 0 and not ign      # (CiscoConfParse refuses factory together with ignore_blank_lines)
+        if factory:
+            # under factory=True append_to_family is always refused (through ConfigList.insert, known finding F10e)
+            # AFTER it may have put the new line into the target's children list: not modelled, not generated
+            ops = [o for o in ops if o[0] not in ("atf", "atfl")] or [["app", "x"]]
+        yield E.mk_case(syntax, ign, auto, lines, ops, "forms-rand", factory=factory)
+    yield from aux_cases(rng, tier)
     if tier != "search":
         for lines in seeds():
             for op in single_ops():
@@ -200,17 +331,117 @@ def cases(rng, tier):
 
 
 def neighbours(case, rng):
+    if case.get("kind"):
+        return
     for _ in range(150):
         ops = list(case["ops"])
         if len(ops) > 1 and rng.random() < 0.5:
             del ops[rng.randrange(len(ops))]
         else:
             ops.insert(rng.randrange(len(ops) + 1), E.rand_ops(rng, 1, case["auto_commit"])[0])
-        yield E.mk_case(case["syntax"], case["ignore_blank"], case["auto_commit"], case["lines"], ops)
+        yield E.mk_case(case["syntax"], case["ignore_blank"], case["auto_commit"], case["lines"], ops,
+                        factory=case.get("factory", False))
 
 
 def impl(case):
+    if case.get("kind") == "cfi":
+        return impl_cfi(case)
+    if case.get("kind") == "det":
+        return impl_det(case)
     return E.run_history(case)
+
+
+def impl_cfi(case):
+    from props.common import quiet_ccp
+    quiet_ccp()
+    from ciscoconfparse2 import CiscoConfParse
+    p = CiscoConfParse([case["self"]], syntax=case["syntax"], factory=False)
+    try:
+        return str(p.config_objs[0].classify_family_indent(E.mk_arg(case["form"], case["txt"], case["syntax"])))
+    except Exception as e:  # noqa: BLE001 — the class is the outcome
+        return "err:" + type(e).__name__
+
+
+def impl_det(case):
+    from props.common import quiet_ccp
+    quiet_ccp()
+    obj = E.mk_arg("L", case["text"], case["syntax"])
+    out = []
+    for o in case["ops"]:
+        try:
+            if o[0] == "rep":
+                obj.replace_text(o[1], o[2])
+            else:
+                obj.re_sub(o[1], o[2])
+            out.append(wire.enc_str(obj.text))
+        except Exception as e:  # noqa: BLE001
+            out.append("err:" + type(e).__name__)
+    return "|".join(out)
+
+
+def oracle_aux(case, ans):
+    if case["kind"] == "cfi":
+        width = E.width_of(case["syntax"])
+        if case["form"] != "S":
+            return [] if ans == "err:InvalidParameters" else [f"classify_family_indent({case['form']}-form argument): {ans}, expected InvalidParameters"]
+        it = len(case["txt"]) - len(case["txt"].lstrip())
+        si = len(case["self"]) - len(case["self"].lstrip())
+        if it % width != 0:
+            return [] if ans == "err:NotImplementedError" else [f"indent {it} is no multiple of {width}: {ans}, expected NotImplementedError"]
+        if ans.startswith("err:"):
+            return [f"unexpected {ans}"]
+        d = it - si
+        if d % width == 0:
+            return [] if int(ans) == d // width else [f"classify_family_indent = {ans}, expected {d // width} levels"]
+        # the object itself is not on a multiple of the width: the docstring is silent; between floor and ceiling
+        return [] if d // width <= int(ans) <= -((-d) // width) else [f"classify_family_indent = {ans} for an indent difference of {d}"]
+    cur, want = case["text"], []
+    for o in case["ops"]:
+        cur = cur.replace(o[1], o[2]) if o[0] == "rep" else re.sub(o[1], o[2], cur)
+        want.append(wire.enc_str(cur))
+    return [] if ans == "|".join(want) else [f"detached line: texts {ans} expected {'|'.join(want)}"]
+
+
+def rejection(case, op):
+    """the error the new entry points must answer a malformed form with (None = the call must be accepted)"""
+    k = op[0]
+    ign = case["ignore_blank"]
+    if k == "insf":
+        if op[1] == "X":
+            return "err:ValueError"
+        if op[2] == "X":
+            return "err:TypeError"
+    elif k in ("oibf", "oiaf"):
+        if op[2] == "X":
+            return "err:NotImplementedError"
+        if op[3].strip() == "" and ign:
+            return "err:InvalidParameters"
+    elif k in ("libf", "liaf"):
+        if op[3] == "S" and op[4].strip() == "" and ign:
+            return "err:InvalidParameters"
+        if op[1] == "X" or (op[1] == "S" and op[2] == "") or op[3] == "X":
+            return "err:ValueError"
+    elif k == "remf":
+        return "err:ValueError"
+    elif k == "remx":
+        return "err:InvalidParameters"
+    return None
+
+
+def canon(op):
+    """an accepted form, as the operation on texts it stands for"""
+    k = op[0]
+    if k == "insf":
+        return ["ins", op[1], op[3]]
+    if k in ("oibf", "oiaf"):
+        return [k[:3], op[1], op[3]]
+    if k in ("libf", "liaf"):
+        return [k[:3], op[2], op[4]]
+    if k == "atfl":
+        return ["atf"] + op[1:]
+    if k == "rem":
+        return ["del", op[1]]
+    return op
 
 
 def descendants(parents, i):
@@ -366,6 +597,8 @@ def ins_pos(n, k):
 
 
 def oracle(case, ans):
+    if case.get("kind"):
+        return oracle_aux(case, ans)
     steps = E.parse_answer(ans)
     fails = []
     width = E.width_of(case["syntax"])
@@ -387,6 +620,26 @@ def oracle(case, ans):
             if cur != prev:
                 fails.append(f"{tag}: skipped but the text changed")
             continue
+        if k in E.EXT_OPS:
+            # the other input forms: a malformed one is refused with the class of its entry point and changes
+            # nothing; an accepted one is judged as the operation on texts it stands for
+            want_err = rejection(case, op)
+            if want_err is not None:
+                if status != want_err:
+                    fails.append(f"{tag}: {status}, expected {want_err}")
+                elif cur != prev:
+                    fails.append(f"{tag}: {status} but the text changed")
+                continue
+            if k == "del2":
+                f = check_del2(case, status, at, prev, cur, dump_prev, dump_cur)
+                if f:
+                    fails.append(f"{tag}: {f}")
+                continue
+            if status != "ok" and not (k == "atfl" and status == "err:NotImplementedError"):
+                fails.append(f"{tag}: unexpected {status}")
+                continue
+            op = canon(op)
+            k = op[0]
         if status != "ok":
             if cur != prev:
                 fails.append(f"{tag}: {status} but the text changed")
@@ -488,6 +741,29 @@ def oracle(case, ans):
     return fails[:3]
 
 
+def check_del2(case, status, i, prev, cur, dump_prev, dump_cur):
+    """delete() twice through the same handle: the first removes the line and its descendants; the second is refused
+    with ConfigListItemDoesNotExist unless a line with the same text now sits at the handle's line number — then it
+    deletes the handle's (stale) line numbers once more, or raises IndexError when they no longer exist"""
+    gone = {i} | set(descendants(dump_prev["parents"], i))
+    once = [t for j, t in enumerate(prev) if j not in gone]
+    same_place = case["auto_commit"] and i < len(once) and once[i] == prev[i]
+    if status == "err:ConfigListItemDoesNotExist":
+        if same_place:
+            return "refused although an equal line is at the handle's line number"
+        return None if cur == once else f"texts {cur!r} expected {once!r} (one delete)"
+    if not same_place:
+        return f"{status}, expected ConfigListItemDoesNotExist (the line is gone)"
+    if status == "err:IndexError":
+        if max(gone) < len(once):
+            return "IndexError although every stale line number exists"
+        return None if cur == once else f"texts {cur!r} expected {once!r} (one delete)"
+    if status != "ok":
+        return f"unexpected {status}"
+    twice = [t for j, t in enumerate(once) if j not in gone]
+    return None if cur == twice else f"texts {cur!r} expected {twice!r}"
+
+
 def check_atf(case, op, i, prev, cur, dump_prev, dump_cur, width):
     """exactly one line added, all other lines keep text and order; a child-level append lands inside the
     target's family and no existing line changes parent"""
@@ -555,6 +831,8 @@ def check_atf(case, op, i, prev, cur, dump_prev, dump_cur, width):
 
 
 def known_id(case, failure):
+    if case.get("factory") and "unexpected err:InvalidParameters" in failure and ("['ins'," in failure or "['insf'," in failure):
+        return "F10e"
     if "same-indent-reparent" in failure:
         return "F10b"
     if "noncfg-target-reparent" in failure:
@@ -563,15 +841,23 @@ def known_id(case, failure):
 
 
 def nontrivial(case):
+    if case.get("kind"):
+        return True
     return any(o[0] not in ("commit", "probe") for o in case["ops"])
 
 
 def describe(case):
-    return {k: case[k] for k in ("syntax", "auto_commit", "lines", "ops")}
+    if case.get("kind"):
+        return {k: v for k, v in case.items() if k not in ("req", "_origin")}
+    return {k: case[k] for k in ("syntax", "auto_commit", "lines", "ops", "factory", "ignore_blank")}
 
 
 def buckets(case, ans):
-    out = ["syntax:" + case["syntax"], "auto:%d" % case["auto_commit"], "ops:%d" % len(case["ops"]),
+    if case.get("kind") == "cfi":
+        return ["aux:cfi:" + case["form"] + ":" + ("err" if ans.startswith("err:") else "int"), "syntax:" + case["syntax"]]
+    if case.get("kind") == "det":
+        return ["aux:det:ops:%d" % len(case["ops"])]
+    out = ["factory:%d" % bool(case.get("factory")), "syntax:" + case["syntax"], "auto:%d" % case["auto_commit"], "ops:%d" % len(case["ops"]),
            "ignore_blank:%d" % case["ignore_blank"]]
     for op, part in zip(case["ops"], ans.split("#")[1:]):
         out.append("op:" + op[0] + ":" + part.split("~")[0].split("@")[0])
@@ -588,6 +874,10 @@ def buckets(case, ans):
         status, _, cur, dc, at = steps[idx + 1]
         if status != "ok" or dp is None or dc is None:
             continue
+        if op[0] in E.EXT_OPS:
+            if rejection(case, op) is not None or op[0] == "del2":
+                continue
+            op = canon(op)
         k = op[0]
         if not is_plain(prev) or not is_plain(cur):
             ios = case["syntax"] == "ios"
